@@ -280,6 +280,17 @@ fn agg_min_single() { let a: f64 = kani::any();
 fn agg_max_single() { let a: f64 = kani::any();
     match eval(Node::Max(Arc::new(vec![Node::Number(a)]))) { Ok(m) => assert!(same(m, a), "max of one argument"), Err(e) => { std::mem::forget(e); assert!(false) } } }
 
+// ---- the tokenizer on concrete literals (point checks: CBMC cannot run the tokenizer on symbolic text) - a second line for the literal arms
+fn first_token(text: &str) -> Option<super::token::Token> { super::tokenizer::Tokenizer::new(text).next() }
+// @obligation owners=C05,C19 fn=eval_f64::tokenizer::Tokenizer::next/literal bounded="the one literal 9.299999999999999 (16 digits, above 2^53 as an integer; concrete): the correctly rounded double"
+#[kani::proof]
+#[kani::unwind(40)]
+fn tok_literal_16_digits() { assert!(matches!(first_token("9.299999999999999"), Some(super::token::Token::Num(f)) if f.to_bits() == (9.299999999999999f64).to_bits()), "the literal is the correctly rounded double"); }
+// @obligation owners=C05,C13 fn=eval_f64::tokenizer::Tokenizer::next/superscript bounded="the one superscript run ¹⁰ (concrete)"
+#[kani::proof]
+#[kani::unwind(40)]
+fn tok_superscript_one_zero() { assert!(matches!(first_token("¹⁰"), Some(super::token::Token::Superscript(f)) if f == 10.0), "the run ¹⁰ is the exponent 10"); }
+
 // ---- canaries: must FAIL --------------------------------------------------------------------------------------
 #[kani::proof]
 fn canary_add_is_sub() { let a: f64 = kani::any(); let b: f64 = kani::any();
